@@ -44,7 +44,13 @@ VARIANTS = [
     ("C02", "fire", DYN, "return -du_dt + self.Tmax * (-order_1 + order_2)", "return self.Tmax * (-du_dt - order_1 + order_2)", 0),
     ("C02", "fire", DYN, '+ 1 / params_dict.eq_params["rho"] * jac_p[0, 1]', '+ 1 / params_dict.eq_params["rho"] * jac_p[0, 0]', 0),
     ("C02", "silent", DYN, 'u(t, x, params) * du_dx(t, x) - params.eq_params["nu"] * d2u_dx2(t, x)', '-params.eq_params["nu"] * d2u_dx2(t, x) + du_dx(t, x) * u(t, x, params)', 0),
+    ("C02", "fire", DYN, "lambda x: self.drift(t, _get_grid(x), params.eq_params)[None, ..., 0:1]", "lambda x: self.drift(t, x_grid, params.eq_params)[None, ..., 0:1]", 0),
     # ---- C03
+    ("C03", "silent", LU, "mse_dyn_loss = jnp.mean(jnp.sum(loss_weight * residuals**2, axis=-1))", "_s = jnp.sum(loss_weight * residuals**2, axis=-1)\n        mse_dyn_loss = jnp.sum(_s) / _s.shape[0]", 0),
+    ("C04", "fire", LPDE, "self.omega_boundary_dim[k] = jnp.s_[v : (v + 1) or None]", "self.omega_boundary_dim[k] = jnp.s_[v : v + 1]", 0),
+    ("C10", "fire", PINN, "slice_solution = jnp.s_[slice_solution : (slice_solution + 1) or None]", "slice_solution = jnp.s_[slice_solution : slice_solution + 1]", 0),
+    ("C17", "fire", RAR, "loss.u_dict.values() if isinstance(loss, SystemLossPDE) else (loss.u,)", "(loss.u,)", 0),
+    ("C12", "silent", LPDE, "{**(batch.param_batch_dict or {}), **obs_eq_params}, params", "{**obs_eq_params, **(batch.param_batch_dict or {})}, params", 0),
     ("C03", "fire", LU, "mse_dyn_loss = jnp.mean(jnp.sum(loss_weight * residuals**2, axis=-1))", "mse_dyn_loss = jnp.mean(jnp.sum(loss_weight * residuals**2, axis=0))", 0),
     ("C03", "fire", LODE, "total_loss = mse_dyn_loss + mse_initial_condition + mse_observation_loss", "total_loss = mse_dyn_loss + mse_initial_condition", 0),
     ("C03", "fire", LPDE, "            mse_norm_loss = jnp.array(0.0)", "            mse_norm_loss = jnp.array(1.0)", 0),
